@@ -9,4 +9,4 @@ git -C /repo worktree add -q --detach $wt HEAD
 trap "git -C /repo worktree remove --force $wt" EXIT
 git -C $wt apply /verif/seeded/$seed/patch.diff
 cd /verif
-SYMX_REPO=$wt VERIF_EVIDENCE_DIR=/tmp/seed_evidence_$seed ./check $prop "$@" || true
+SYMX_REPO=$wt VERIF_EVIDENCE_DIR=/tmp/seed_evidence_$seed VERIF_REPLAY_DIR=/tmp/seed_replays_$seed ./check $prop "$@" || true
